@@ -67,7 +67,7 @@ func Catalogue(tier string) []*RSystem {
 		{SysName: "dist-rw", Kind: "dist", NR: 2, Keys: keys2, Prefixes: pfx2, NV: 1, Modes: []string{"write", "read"}, Hooks: [][]string{allHooks, allHooks}, Gossip: true, QCap: 2,
 			W0: [][]int{{1}, {1}}, Reads: true},
 		// systems in which the known findings live
-		{SysName: "cl-hooks-i", Kind: "cl", NR: 1, Keys: keys2, Prefixes: pfx2, NV: 2, Hooks: [][]string{{"ins", "del"}}, W0: [][]int{{2}}},
+		{SysName: "cl-insonly", Kind: "cl", NR: 1, Keys: keys2, Prefixes: pfx2, NV: 2, Hooks: [][]string{{"ins", "del"}}, W0: [][]int{{2}}},
 		{SysName: "cl-foreign", Kind: "cl", NR: 1, Keys: keys2, Prefixes: pfx2, NV: 1, Hooks: [][]string{allHooks}, W0: [][]int{{2, 1}}, Foreign: true, Reads: true},
 		{SysName: "cl-conc", Kind: "cl", NR: 2, Keys: []string{"a"}, Prefixes: []string{""}, NV: 2, Hooks: [][]string{allHooks, allHooks}, Gossip: true, QCap: 1},
 		{SysName: "cl-overlap", Kind: "cl", NR: 2, Keys: []string{"a"}, Prefixes: []string{""}, NV: 2, Writers: []int{1}, Hooks: [][]string{allHooks, allHooks}, Gossip: true, QCap: 2,
@@ -144,7 +144,7 @@ func TestExplore(t *testing.T) {
 	nchains, chainLen := 6, 60
 	if tier == "thorough" {
 		maxNodes = 8000
-		nchains, chainLen = 30, 200
+		nchains, chainLen = 20, 150
 	}
 	bundle := &core.Bundle{}
 	st := runStats{PerSystem: map[string][3]int{}}
